@@ -8,7 +8,8 @@ import Driver.Common
 
 E-PURE on `RemoteActorState`:
   `proxy` · `call <port> <payload>` · `cast <payload>` · `reply <tag> <data>` ·
-  `abandon <port>` · `killsession`
+  `abandon <port>` · `killsession` · (wave 2) `fcast <variant> <args> <meta|->` ·
+  `fcall <variant> <args> <meta|-> <timeout ms|->` (see `fieldsStep`)
   observation of a handled message:
   `tag=<t> pending=<tags|-> cursor=<c|-> frames=<c:tag:payload|k:payload,…|-> got=<port:data,…|->`
 
